@@ -1,4 +1,4 @@
-package caddyl4
+package integration
 
 // C01 end-to-end engine. Real caddy-l4 servers (layer4.App started by caddy.Run) are built from
 // generated route lists that use the shipped wrapping handlers (proxy_protocol, tee, throttle,
@@ -24,6 +24,7 @@ import (
 
 	"github.com/caddyserver/caddy/v2"
 
+	_ "github.com/mholt/caddy-l4"
 	"github.com/mholt/caddy-l4/layer4"
 )
 
@@ -232,6 +233,11 @@ func (h *vRec) Handle(cx *layer4.Connection, next layer4.Handler) error {
 	}
 	return next.Handle(cx)
 }
+
+var (
+	vSlowMu sync.Mutex
+	vSlow   []string
+)
 
 var vRegisterOnce sync.Once
 
@@ -621,7 +627,7 @@ func vRunClient(sc *vScenario) (echoed []byte, cerr error) {
 		r.mu.Lock()
 		all := true
 		for _, ex := range sc.expect {
-			if len(r.data[ex.id]) < len(ex.want) {
+			if r.ran[ex.id] == 0 || len(r.data[ex.id]) < len(ex.want) {
 				all = false
 			}
 		}
@@ -630,6 +636,11 @@ func vRunClient(sc *vScenario) (echoed []byte, cerr error) {
 			break
 		}
 		time.Sleep(time.Millisecond)
+		if time.Since(t0) >= 4*time.Second {
+			vSlowMu.Lock()
+			vSlow = append(vSlow, sc.desc)
+			vSlowMu.Unlock()
+		}
 	}
 	c.Close()
 	wg.Wait()
@@ -673,7 +684,6 @@ func TestVerifC01E2E(t *testing.T) {
 			"apps":    map[string]any{"layer4": map[string]any{"servers": servers}},
 		}
 		raw, _ := json.Marshal(cfg)
-		t0 := time.Now()
 		if err := caddy.Load(raw, true); err != nil {
 			t.Fatalf("loading generated config: %v", err)
 		}
@@ -692,8 +702,8 @@ func TestVerifC01E2E(t *testing.T) {
 			}(i, sc)
 		}
 		wg.Wait()
-		out.Stat(fmt.Sprintf("batch%d_ms", start/batch), time.Since(t0).Milliseconds())
 		// wait for the recorders (the branch of a tee finishes after the main chain)
+		t1 := time.Now()
 		deadline := time.Now().Add(5 * time.Second)
 		for _, sc := range scs {
 			r := vRecOf(sc.sid)
@@ -706,11 +716,17 @@ func TestVerifC01E2E(t *testing.T) {
 					}
 				}
 				r.mu.Unlock()
+				if !all && time.Now().After(deadline) {
+					out.Stat("recorder_never_finished", sc.desc)
+				}
 				if all || time.Now().After(deadline) {
 					break
 				}
 				time.Sleep(2 * time.Millisecond)
 			}
+		}
+		if w := time.Since(t1).Milliseconds(); w > 200 {
+			out.Stat(fmt.Sprintf("batch%d_recorder_wait_ms", start/batch), w)
 		}
 		for i, sc := range scs {
 			r := vRecOf(sc.sid)
@@ -781,6 +797,7 @@ func TestVerifC01E2E(t *testing.T) {
 		}
 	}
 	_ = caddy.Stop()
+	out.Stat("client_wait_timeouts", vSlow)
 	out.Stat("scenarios", n)
 	out.Stat("scenarios_failed", nfail)
 	out.Stat("distinct_shapes", len(classes))
